@@ -204,19 +204,29 @@ Proof.
   intros H. induction b as [|[r e] t IH]; simpl; auto. now rewrite H, IH.
 Qed.
 
+Lemma count_ok_length a pos vals :
+  values_of a pos = Some vals -> count_ok a pos = true -> length vals = length (vars a).
+Proof.
+  unfold values_of, count_ok, vars. destruct (f_kind a) eqn:K.
+  - destruct pos as [|tr [|te [|x r]]]; try discriminate. intros H C. inversion H; subst.
+    apply andb_true_iff in C. destruct C as [C1 C2]. apply Nat.eqb_eq in C1, C2.
+    rewrite !app_length. congruence.
+  - unfold values_of. rewrite K. intros H. rewrite H. intros C. now apply Nat.eqb_eq in C.
+Qed.
+
 Lemma call_own_bilinear a :
   f_kind a = Bilinear ->
   call a [PSeq (map ELeaf (f_trials a)); PSeq (map ELeaf (f_tests a))] [] = Ok (f_body a).
 Proof.
-  intros K. unfold call, values_of. rewrite K. simpl. unfold vars. rewrite <- map_app.
-  f_equal. apply map_body_id. apply subst_self.
+  intros K. unfold call, values_of, count_ok. rewrite K. simpl. rewrite !map_length, !Nat.eqb_refl. simpl.
+  unfold vars. rewrite <- map_app. f_equal. apply map_body_id. apply subst_self.
 Qed.
 
 Lemma call_own_linear a :
   f_kind a = Linear -> f_trials a = [] -> call a [PSeq (map ELeaf (f_tests a))] [] = Ok (f_body a).
 Proof.
-  intros K T. unfold call, values_of. rewrite K. simpl. unfold vars. rewrite T. simpl.
-  f_equal. apply map_body_id. apply subst_self.
+  intros K T. unfold call, count_ok, values_of. rewrite K. simpl. unfold vars. rewrite T. simpl.
+  rewrite map_length, Nat.eqb_refl. f_equal. apply map_body_id. apply subst_self.
 Qed.
 
 (* single (non-tuple) arguments, as one writes a(u, v) *)
@@ -225,32 +235,26 @@ Lemma call_own_single a u v :
   call a [PVal (ELeaf u); PVal (ELeaf v)] [] = Ok (f_body a).
 Proof.
   intros K T1 T2. pose proof (call_own_bilinear a K) as H. rewrite T1, T2 in H.
-  unfold call, values_of in *. rewrite K in *. simpl in *. exact H.
+  unfold call, values_of, count_ok in *. rewrite K in *. rewrite T1, T2 in *. simpl in *. exact H.
 Qed.
 
 (* ------------------------------------------------------------------ what a call leaves untouched *)
 Lemma map_body_regions f b : map fst (map_body f b) = map fst b.
 Proof. unfold map_body. rewrite map_map. reflexivity. Qed.
 
-Lemma update_free_regions fv kw : forall b b', update_free fv kw b = Ok b' -> map fst b' = map fst b.
-Proof.
-  induction kw as [|[n v] r IH]; simpl; intros b b' H.
-  - now inversion H.
-  - destruct (find_name n fv); [|discriminate]. apply IH in H. now rewrite map_body_regions in H.
-Qed.
-
 Lemma call_regions a pos kw b : call a pos kw = Ok b -> map fst b = map fst (f_body a).
 Proof.
   unfold call. destruct (values_of a pos); [|discriminate].
-  destruct (update_free (free_vars a) kw (f_body a)) eqn:E; [|discriminate].
-  intros H. inversion H; subst. rewrite map_body_regions. eapply update_free_regions; eauto.
+  destruct (kw_dict (free_vars a) kw); [|discriminate].
+  destruct (count_ok a pos); [|discriminate].
+  intros H. inversion H; subst. apply map_body_regions.
 Qed.
 
 (* without keywords the result is the simultaneous substitution of the declared variables ... *)
 Lemma call_positional a pos vals :
-  values_of a pos = Some vals ->
+  values_of a pos = Some vals -> count_ok a pos = true ->
   call a pos [] = Ok (map_body (subst_sim (combine (vars a) vals)) (f_body a)).
-Proof. intros H. unfold call. now rewrite H. Qed.
+Proof. intros H C. unfold call. rewrite H, C. reflexivity. Qed.
 
 (* ... under which every leaf that is not a declared variable (free field, constant, coordinate,
    number, any other atom) is a fixed point, *)
@@ -309,13 +313,12 @@ Proof.
   apply free_var_not_declared in H. destruct H as [[_ H]|H]; congruence.
 Qed.
 
-Lemma update_free_unknown fv kw n v :
-  In (n, v) kw -> find_name n fv = None -> forall b, update_free fv kw b = Err ErrUnknownKw.
+Lemma kw_dict_unknown fv kw n v : In (n, v) kw -> find_name n fv = None -> kw_dict fv kw = None.
 Proof.
-  induction kw as [|[m w] r IH]; simpl; intros Hin Hn b; [contradiction|].
+  induction kw as [|[m w] r IH]; simpl; intros Hin Hn; [contradiction|].
   destruct Hin as [E|Hin].
   - inversion E; subst. now rewrite Hn.
-  - destruct (find_name m fv); auto.
+  - rewrite (IH Hin Hn). now destruct (find_name m fv).
 Qed.
 
 Lemma call_unknown_kw a pos kw n v :
@@ -323,7 +326,54 @@ Lemma call_unknown_kw a pos kw n v :
   call a pos kw = Err ErrUnknownKw.
 Proof.
   intros Hp Hin Hn. unfold call. destruct (values_of a pos); [|congruence].
-  now rewrite (update_free_unknown _ _ _ _ Hin Hn).
+  now rewrite (kw_dict_unknown _ _ _ _ Hin Hn).
+Qed.
+
+(* a wrong number of values is refused (after the unknown-keyword test, as in the code) *)
+Lemma call_wrong_count a pos kw vals d :
+  values_of a pos = Some vals -> kw_dict (free_vars a) kw = Some d -> count_ok a pos = false ->
+  call a pos kw = Err ErrCount.
+Proof. intros Hv Hd Hc. unfold call. now rewrite Hv, Hd, Hc. Qed.
+
+(* FULL statement: whenever a call succeeds it is ONE simultaneous substitution, keywords and arguments
+   together, with exactly one value per declared argument *)
+Lemma call_simultaneous a pos kw b :
+  call a pos kw = Ok b ->
+  exists vals d, values_of a pos = Some vals /\ kw_dict (free_vars a) kw = Some d /\
+                 length vals = length (vars a) /\
+                 b = map_body (subst_sim (d ++ combine (vars a) vals)) (f_body a) /\
+                 forall (I : interp) rho,
+                   sem_body I rho b = sem_body I (upd I rho (d ++ combine (vars a) vals)) (f_body a).
+Proof.
+  unfold call. destruct (values_of a pos) as [vals|] eqn:Hv; [|discriminate].
+  destruct (kw_dict (free_vars a) kw) as [d|] eqn:Hd; [|discriminate].
+  destruct (count_ok a pos) eqn:Hc; [|discriminate].
+  intros H. inversion H; subst. exists vals, d. repeat split; auto.
+  - eapply count_ok_length; eauto.
+  - intros. apply sem_body_subst.
+Qed.
+
+Lemma body_leaves_subst s b :
+  body_leaves (map_body (subst_sim s) b) =
+  flat_map (fun l => match lookup s l with Some v => leaves v | None => [l] end) (body_leaves b).
+Proof.
+  unfold body_leaves. induction b as [|[r e] t IH]; simpl; auto.
+  rewrite flat_map_app, leaves_subst. now rewrite IH.
+Qed.
+
+(* FULL arity statement: after a successful call no declared argument survives, except inside a supplied value *)
+Lemma call_no_argument_survives a pos kw b l :
+  call a pos kw = Ok b -> In l (vars a) -> In l (body_leaves b) ->
+  exists vals d k v, values_of a pos = Some vals /\ kw_dict (free_vars a) kw = Some d /\
+                     lookup (d ++ combine (vars a) vals) k = Some v /\ In l (leaves v).
+Proof.
+  intros H Hl Hb. destruct (call_simultaneous a pos kw b H) as [vals [d [Hv [Hd [Hlen [Eb _]]]]]].
+  exists vals, d. subst b. rewrite body_leaves_subst in Hb. apply in_flat_map in Hb.
+  destruct Hb as [k [Hk Hin]]. destruct (lookup (d ++ combine (vars a) vals) k) as [v|] eqn:E.
+  - exists k, v. auto.
+  - exfalso. simpl in Hin. destruct Hin as [->|[]].
+    rewrite lookup_app in E. destruct (lookup_combine_some (vars a) vals l Hl) as [w Hw]; [lia|].
+    rewrite Hw in E. discriminate.
 Qed.
 
 (* ------------------------------------------------------------------ composition of substitutions *)
@@ -405,17 +455,17 @@ Proof.
       * rewrite IH. destruct (lookup p l); auto.
 Qed.
 
-Lemma call_simultaneous_partial a pos kw vals d :
+Lemma call_before_fix_partial a pos kw vals d :
   values_of a pos = Some vals -> kw_dict (free_vars a) kw = Some d ->
-  cleanb d (combine (vars a) vals) = true ->
-  call a pos kw = call_sim a pos kw.
+  cleanb d (combine (vars a) vals) = true -> count_ok a pos = true ->
+  call_before_fix a pos kw = call a pos kw.
 Proof.
-  intros Hv Hd Hc. unfold call, call_sim. rewrite Hv, Hd.
+  intros Hv Hd Hc Hn. unfold call, call_before_fix. rewrite Hv, Hd, Hn.
   rewrite (update_free_clean _ _ _ _ _ Hd Hc). f_equal. rewrite map_body_comp. apply map_body_ext.
   apply subst_comp. now apply clean_app.
 Qed.
 
-(* without that guard the statement is false of the (faithful) model: two witnesses *)
+(* historical: without that guard the code before the repairs did something else; two witnesses *)
 Definition wu := LFun false "u".  Definition wv := LFun false "v".
 Definition wf := LFun false "f".  Definition ww := LFun false "w".
 Definition wc := LConst "c".      Definition wk := LConst "k".
@@ -427,32 +477,33 @@ Definition wit_bil : form :=
   mkForm Bilinear [wu] [wv] [("dom:Omega", EMul [ELeaf wc; ELeaf wu; ELeaf wv]);
                              ("bnd:Omega:G:0:1", EMul [ELeaf wk; ELeaf wu; ELeaf wv])].
 
-Lemma call_kw_then_args_refuted :
-  call wit_lin [PVal (ELeaf ww)] [("f", ELeaf wv)] = Ok [("dom:Omega", EMul [ELeaf ww; ELeaf ww])] /\
-  call_sim wit_lin [PVal (ELeaf ww)] [("f", ELeaf wv)] = Ok [("dom:Omega", EMul [ELeaf wv; ELeaf ww])].
+Lemma call_kw_then_args_before_fix :
+  call_before_fix wit_lin [PVal (ELeaf ww)] [("f", ELeaf wv)] = Ok [("dom:Omega", EMul [ELeaf ww; ELeaf ww])] /\
+  call wit_lin [PVal (ELeaf ww)] [("f", ELeaf wv)] = Ok [("dom:Omega", EMul [ELeaf wv; ELeaf ww])].
 Proof. split; reflexivity. Qed.
 
-Lemma call_kw_swap_refuted :
-  call wit_bil [PVal (ELeaf wu); PVal (ELeaf wv)] [("c", ELeaf wk); ("k", ELeaf wc)]
+Lemma call_kw_swap_before_fix :
+  call_before_fix wit_bil [PVal (ELeaf wu); PVal (ELeaf wv)] [("c", ELeaf wk); ("k", ELeaf wc)]
     = Ok [("dom:Omega", EMul [ELeaf wc; ELeaf wu; ELeaf wv]); ("bnd:Omega:G:0:1", EMul [ELeaf wc; ELeaf wu; ELeaf wv])] /\
-  call_sim wit_bil [PVal (ELeaf wu); PVal (ELeaf wv)] [("c", ELeaf wk); ("k", ELeaf wc)]
+  call wit_bil [PVal (ELeaf wu); PVal (ELeaf wv)] [("c", ELeaf wk); ("k", ELeaf wc)]
     = Ok [("dom:Omega", EMul [ELeaf wk; ELeaf wu; ELeaf wv]); ("bnd:Omega:G:0:1", EMul [ELeaf wc; ELeaf wu; ELeaf wv])].
 Proof. split; reflexivity. Qed.
 
-Lemma call_simultaneous_refuted :
-  exists a pos kw, call a pos kw <> call_sim a pos kw.
+Lemma call_before_fix_not_simultaneous :
+  exists a pos kw, call_before_fix a pos kw <> call a pos kw.
 Proof.
   exists wit_lin, [PVal (ELeaf ww)], [("f", ELeaf wv)].
-  destruct call_kw_then_args_refuted as [-> ->]. discriminate.
+  destruct call_kw_then_args_before_fix as [-> ->]. discriminate.
 Qed.
 
 (* the number of values is not checked: zip() stops at the shorter list, a declared variable survives
    and a test value lands in a trial slot *)
-Lemma call_arity_refuted :
-  exists a pos b l, call a pos [] = Ok b /\ In l (vars a) /\ In l (body_leaves b) /\
+Lemma call_arity_before_fix :
+  call wit_bil [PSeq []; PVal (ELeaf ww)] [] = Err ErrCount /\
+  exists a pos b l, call_before_fix a pos [] = Ok b /\ In l (vars a) /\ In l (body_leaves b) /\
                     ~ In l (flat_map leaves (flat_map as_list pos)).
 Proof.
-  exists wit_bil, [PSeq []; PVal (ELeaf ww)].
+  split; [reflexivity|]. exists wit_bil, [PSeq []; PVal (ELeaf ww)].
   eexists. exists wv. split; [reflexivity|]. split; [simpl; auto|]. split; [simpl; auto 10|].
   simpl. intros [H|[]]. discriminate.
 Qed.
@@ -517,13 +568,14 @@ Qed.
 
 (* arguments that mention each other, a(u + v, u): each occurrence is replaced once, by the value
    the argument had in the caller's environment *)
-Lemma call_mentions_each_other (I : interp) rho a tr te :
-  f_kind a = Bilinear ->
+Lemma call_mentions_each_other (I : interp) rho a u v tr te :
+  f_kind a = Bilinear -> f_trials a = [u] -> f_tests a = [v] ->
   exists b, call a [PVal tr; PVal te] [] = Ok b /\
             sem_body I rho b = sem_body I (upd I rho (combine (vars a) [tr; te])) (f_body a).
 Proof.
-  intros K. eexists. split.
-  - apply call_positional. unfold values_of. rewrite K. reflexivity.
+  intros K T1 T2. eexists. split.
+  - apply call_positional; [unfold values_of; rewrite K; reflexivity|].
+    unfold count_ok. rewrite K, T1, T2. reflexivity.
   - apply sem_body_subst.
 Qed.
 
@@ -605,8 +657,13 @@ Proof.
   intros H rho. pose proof (is_symmetric_sound I a H rho) as S.
   unfold is_symmetric in H. destruct (f_kind a) eqn:K; [|discriminate].
   unfold own_args in S. rewrite (call_own_bilinear a K) in S.
-  unfold exch_args, call, values_of in S. rewrite K in S. simpl in S.
-  inversion S as [S']. rewrite S'. unfold exch_dict, vars. now rewrite sem_body_subst.
+  unfold own_args, exch_args in H. rewrite (call_own_bilinear a K) in H.
+  unfold exch_args in S.
+  destruct (call a [PSeq (map ELeaf (f_tests a)); PSeq (map ELeaf (f_trials a))] []) as [y|] eqn:Ey; [|discriminate].
+  destruct (call_simultaneous _ _ _ _ Ey) as [vals [d [Hv [Hd [_ [Eb _]]]]]].
+  unfold values_of in Hv. rewrite K in Hv. simpl in Hv. inversion Hv; subst vals.
+  simpl in Hd. inversion Hd; subst d. simpl in Eb. subst y.
+  simpl in S. inversion S as [S']. rewrite S'. unfold exch_dict, vars. now rewrite sem_body_subst.
 Qed.
 
 (* the flag is never true for a form whose meaning changes under exchange *)
